@@ -22,7 +22,7 @@ DET = 'bounded-exhaustive enumeration of inputs on the instrumented implementati
 CHECKS.update({
  'C01': ('model_checking', 'all arrival sequences (length<=4/5 over 10 boundary timestamps) x sizes x MAXOUTOFORDERNESS x feed policy x keys (also sizes not dividing a day, TIMEUNIT ss/ns, a 36 h jump of event time in mid-stream, present-day float64 timestamps on a 100 ms grid, strategy block with a lagging consumer, bursts of 160/320 in-order events) through the real engine against ref.Tumbling, plus all schedules (<=2/3 deviations) of ingest vs trigger/watermark goroutines on the window object for fixed sequences', 'DESIGN.md 3/C01', SEQ_NOTE + '; ' + SCHED_NOTE, DET + ' + stateless schedule DFS on the window object'),
  'C02': ('model_checking', 'all event scripts (length<=4/5 over on-time/late/too-late timestamps and garbage rows) x 3 event-time window kinds (session also with a second key that only pushes the watermark) x MAXOUTOFORDERNESS x ALLOWEDLATENESS on the real engine under the eager schedule, IDLETIMEOUT scripts (no early firing; an event behind the idle-advanced watermark changes no result), and schedule exploration of the window objects; monitors for early firing, on-time loss, late-update contents/window_id, too-late and garbage rows (with/without differential)', 'DESIGN.md 3/C02', SEQ_NOTE, DET + ' and per-delivery monitors'),
- 'C03': ('model_checking', 'all value sequences (length<=4/6 over numbers, NULL, missing) for every listed aggregate, percentile/nth_value, expression arguments, all ordered batch pairs, forward/reverse shared-instance histories, two interleaved groups in one batch for every aggregate; compared with ref.Agg', 'DESIGN.md 3/C03', SEQ_NOTE, DET),
+ 'C03': ('model_checking', 'all value sequences (length<=4/6 over numbers, NULL, missing) for every listed aggregate, percentile/nth_value, expression arguments, all ordered batch pairs, forward/reverse shared-instance histories, two interleaved groups in one batch for every aggregate; type-independent aggregates over a text column; compared with ref.Agg', 'DESIGN.md 3/C03', SEQ_NOTE, DET),
  'C04': ('model_checking', '18 key-tuple alphabets plus a pairwise collision search over separator/escape/marker characters (2 and 3 columns) (separator-like strings, NULL marker text, empty string, NULL, missing, numbers, upper(k); 0..3 columns) x 4 window kinds x all row sequences of length<=4/5, multi-argument function keys, mixed-case column names, TriggerWindow() with several groups open, grouping columns from a joined table or below the stream alias (2-4 path segments) with their output names, the window written first with LIMIT directly after the last column; delivered (group,ids) multiset must equal the typed-tuple reference grouping', 'DESIGN.md 3/C04', SEQ_NOTE, DET),
  'C08': ('model_checking', 'as C01 for sliding windows: 5 size/slide pairs (dividing, not dividing, equal, slide>size) x MAXOUTOFORDERNESS x feed policy (also a 36 h jump of event time, strategy block with a lagging consumer, bursts of 160/320 in-order events) against ref.Sliding, plus schedule exploration of the window object', 'DESIGN.md 3/C08', SEQ_NOTE + '; ' + SCHED_NOTE, DET + ' + stateless schedule DFS on the window object'),
  'C09': ('model_checking', 'all key sequences (length<=7/9 over 3 keys, canonical) x N x 1|2 grouping columns (incl. tuples with a missing column) x eager|lazy feed, with pauses of 1.5 s/25 s virtual time without/with STATETTL, function-expression and mixed-spelling keys, strategy block with a one-batch output buffer and a lagging consumer, statistics calls between rows, a panicking synchronous sink in front of the observing one, a nested-path key, float64 keys beyond float32 precision, colliding key tuples, against the per-key batching reference, plus all schedules (<=1/2 deviations) of producer, processor, counting-window goroutine and consumer for fixed sequences', 'DESIGN.md 3/C09', SEQ_NOTE + '; ' + SCHED_NOTE, DET + ' + stateless schedule DFS of the full pipeline'),
@@ -39,7 +39,7 @@ CHECKS.update({
  'C14': ('model_checking', '6 analytic queries x all row sequences (length<=4/5 over 3 partitions x {1,2,NULL,missing}) through EmitSync against per-partition reference state machines, sync vs async, partition isolation, changed_col(s), WHEN gating (passing rows metamorphic, failing rows repeat the last result), wrappers over two analytic calls (sparse rows; a NULL first call before a cumulative one), start/reset arguments of acc_* with overlapping predicates, container-valued columns, pairwise partition-key collision search, partition cap (also under a WHEN gate), an analytic call in WHERE with PARTITION BY and WHEN, had_changed(.., *) over whole rows', 'DESIGN.md 3/C14', SEQ_NOTE, DET),
  'C15': ('model_checking', '30 patterns (incl. {n,m} with m>=n+2 and PERMUTE of three variables) x 8 DEFINE templates (incl. aggregates over all-negative values, one function called twice with different arguments and FIRST/LAST qualified by a variable, also in MEASURES) x every SKIP mode x all event streams (length<=5/7 over 3 values) against a brute-force matcher (all valid labelings; leftmost start, longest end, SKIP rule), ALL ROWS classification, two interleaved partitions, WITHIN (longest run per start whose span fits), pairwise partition-key search', 'DESIGN.md 3/C15', SEQ_NOTE, DET),
  'C16': ('model_checking', '6 JOIN queries x initial tables x all operation sequences (length<=3/4 over EmitSync/Upsert/Delete with int/float/string/NULL key components) against a typed-key reference table; 864 ON-clause naming configurations; composite-key pair search (match iff equal); GROUP BY/WHERE on joined columns; all schedules (<=1/2 deviations) of Emit x2 against Upsert+Delete with a table-version window oracle (Unlock is a scheduling point when the tree uses TryLock); auxiliary: free-running -race pass of Emit/EmitSync against UpsertTable/Delete', 'DESIGN.md 3/C16', SEQ_NOTE + '; ' + SCHED_NOTE, DET + ' + stateless schedule DFS'),
- 'C17': ('model_checking', '17 TRIGGER WHEN predicates (incl. OR before AND without parentheses) x all row sequences (length<=4/6 over 2 groups x {1,2,3,NULL}; short ones also with pauses between rows; without GROUP BY; typed numbers) against the running-aggregate reference; pairwise group-key identity search; strategy block with a lagging consumer; aggregates with expression arguments in SELECT and in the predicate; statistics calls between rows, STATETTL, several queries sharing one predicate text, count(<text column>)', 'DESIGN.md 3/C17', SEQ_NOTE, DET),
+ 'C17': ('model_checking', '17 TRIGGER WHEN predicates (incl. OR before AND without parentheses) x all row sequences (length<=4/6 over 2 groups x {1,2,3,NULL}; short ones also with pauses between rows; without GROUP BY; typed numbers) against the running-aggregate reference; pairwise group-key identity search; strategy block with a lagging consumer; aggregates with expression arguments in SELECT and in the predicate; statistics calls between rows, STATETTL, several queries sharing one predicate text, type-independent aggregates over a text column', 'DESIGN.md 3/C17', SEQ_NOTE, DET),
  'C18': ('model_checking', 'all schedules (quick: <=2 deviations, every non-default choice costs 1; thorough: <=1 preemption with free choices at blocking points) of Emit/Stop/AddSink/GetStats/TriggerWindow/EmitSync threads (TriggerWindow also after Stop) on 11 query kinds x 3 overflow strategies with plain, panicking (sync and async), re-entrant (GetStats, AddSink, EmitSync), blocking, gated and slow asynchronous sinks, a pair of synchronous sinks of which the first panics, rows whose evaluation panics in a user function; monitors for panic, deadlock, Stop barrier, grace timer, goroutine leak, delivery of later rows after a sink panic; plus the free-running -race pass', 'DESIGN.md 3/C18', SCHED_NOTE, 'stateless DFS over schedules of the instrumented implementation, deviation-bounded, happens-before state caching; auxiliary -race pass'),
  'C20': ('model_checking', '29 query kinds x Emit/EmitSync x nested rows: deep snapshots of caller maps and of delivered batches; every registered scalar, aggregate and analytic function over the caller\'s own slices and maps; 18 instance pairs (one worker process each) x all input sequences (length<=2/3) x all interleavings of the two inputs against solo runs on fresh globals; plus the free-running -race pass', 'DESIGN.md 3/C20', SEQ_NOTE, DET + ' over all operation interleavings of two instances; auxiliary -race pass'),
 })
